@@ -117,6 +117,13 @@ def run_case(case):
     G = lib()
     cls = case[0]
     a = case[1:]
+    pkw = {}
+    if cls.startswith("polygon/"):
+        # the constructor's documented keyword forms must validate like the default form
+        if cls.endswith("/reverse"):
+            cls, pkw = cls[: -len("/reverse")], {"reverse": True}
+        elif cls.endswith("/check-convex"):
+            cls, pkw = cls[: -len("/check-convex")], {"check_convex": True}
     if cls == "line/pp":
         p, bump = a
         return G.Line(fpt(p), fpt(p, bump))
@@ -140,20 +147,20 @@ def run_case(case):
         return G.HalfLine(fpt(p), fvec((0, 0, 0), bump))
     if cls == "polygon/few":
         pts, = a
-        return G.ConvexPolygon(tuple(fpt(p) for p in pts))
+        return G.ConvexPolygon(tuple(fpt(p) for p in pts), **pkw)
     if cls == "polygon/few-distinct":
         pts, bump = a
         ps = [fpt(p) for p in pts]
         ps[-1] = fpt(pts[-1], bump)
-        return G.ConvexPolygon(tuple(ps))
+        return G.ConvexPolygon(tuple(ps), **pkw)
     if cls == "polygon/collinear":
         pts, bump = a
         ps = [fpt(p) for p in pts]
         ps[-1] = fpt(pts[-1], bump)
-        return G.ConvexPolygon(tuple(ps))
+        return G.ConvexPolygon(tuple(ps), **pkw)
     if cls == "polygon/nonplanar":
         pts, = a
-        return G.ConvexPolygon(tuple(fpt(p) for p in pts))
+        return G.ConvexPolygon(tuple(fpt(p) for p in pts), **pkw)
     if cls == "plane/zero-normal":
         p, bump = a
         return G.Plane(fpt(p), fvec((0, 0, 0), bump))
@@ -382,6 +389,12 @@ def polygon_nonplanar(draw):
 
 
 @st.composite
+def polygon_keyword_forms(draw):
+    base = draw(st.one_of(polygon_few(), polygon_few_distinct(), polygon_collinear(), polygon_nonplanar(), polygon_nonplanar()))
+    return (base[0] + draw(st.sampled_from(("/reverse", "/reverse", "/check-convex"))),) + tuple(base[1:])
+
+
+@st.composite
 def plane_zero(draw):
     return ("plane/zero-normal", draw(gen.lattice_point()), draw(bumps))
 
@@ -564,6 +577,7 @@ def strata(tier):
         Stratum("polygon/few-distinct", "hyp", polygon_few_distinct(), n),
         Stratum("polygon/collinear", "hyp", polygon_collinear(), n),
         Stratum("polygon/nonplanar", "hyp", polygon_nonplanar(), n),
+        Stratum("polygon/keyword-forms", "hyp", polygon_keyword_forms(), n),
         Stratum("plane/zero-normal", "hyp", plane_zero(), n),
         Stratum("plane/collinear-points", "hyp", plane_collinear(), n),
         Stratum("plane/parallel-vectors", "hyp", plane_parallel(), n),
